@@ -8,15 +8,34 @@ EXPLANATION = "show/look round trip of symbolic Strings through the real print/s
 def R(name, slen, tiers, extra=(), **kw):
     big = 3 * slen + 8
     us = ["Type_Scan.0:40", "Type_Scan.1:40", "strcmp.0:26", "strlen.0:%d" % big, "strcpy.0:%d" % big, "strcat.0:%d" % big, "strcat.1:%d" % big, "strchr.0:24",
-          "vp_emit.0:%d" % big, "vsscanf.0:%d" % big, "vcap_new.0:40", "vcap_realloc.0:40", "vcap_check.0:40", "vcap_check.1:14", "vcap_find.0:14",
+          "vp_emit.0:%d" % big, "vsscanf.0:%d" % big, "vcap_new.0:40", "vcap_realloc.0:40", "vcap_check.0:40", "vcap_check.1:6", "vcap_find.0:6", "vcap_live.0:6",
           "String_Show.0:%d" % (slen + 2), "String_Look.0:%d" % (slen + 3), "memcpy.0:4", "memcpy.1:%d" % big, "print_to_with.0:8", "print_to_with.1:8", "print_to_with.2:8",
           "scan_from_with.0:8", "scan_from_with.1:8", "scan_from_with.2:8", "Tuple_Len.0:6"]
-    return Ob("roundtrip.%s.s%d" % (name, slen), "C15/string_roundtrip.c", defs=["SLEN=%d" % slen, "VCAP=36"] + list(extra), srcs_extra=["env_vcap.c", "env_printf.c"],
+    return Ob("roundtrip.%s.s%d" % (name, slen), "C15/string_roundtrip.c", defs=["SLEN=%d" % slen, "VCAP=%d" % (4 * slen + 8), "VCAP_BLOCKS=4"] + list(extra), srcs_extra=["env_vcap2.c", "env_printf.c"],
               filedefs={"String.c": ["-Drealloc=vcap_realloc", "-Dcalloc=vcap_calloc", "-Dfree=vcap_free"]},
-              unwind=big, unwindset=us, checks=["bounds", "pointer"], tiers=tiers, object_bits=14, mem_gb=10,
+              unwind=big, unwindset=us, checks=["bounds", "pointer"], tiers=tiers, object_bits=14, mem_gb=kw.pop("mem_gb", 10),
               desc="String show/look round trip, content <= %d bytes (%s)" % (slen, name), **kw)
-OBLIGATIONS = [R("plain", 1, ("probe",), timeout=900), R("plain", 2, ("probe",), timeout=1800)]
-LEVEL_TEXT = "x"
-LEVEL_NOTE = "x"
-
-CLAIMED = False
+def N(kind, via, tiers, prefix=False, **kw):
+    kn = ["int", "float"][kind]; vn = ["show_look", "print_scan_obj", "print_scan_spec", "print_scan_i"][via]
+    big = 48
+    us = ["Type_Scan.0:40", "Type_Scan.1:40", "strcmp.0:26", "strlen.0:%d" % big, "strcpy.0:%d" % big, "strcat.0:%d" % big, "strcat.1:%d" % big, "strchr.0:24",
+          "vcap_new.0:42", "vcap_realloc.0:42", "vcap_realloc.1:42", "vcap_check.0:42", "vcap_check.1:6", "vcap_find.0:6", "vcap_live.0:6",
+          "memcpy.0:4", "memcpy.1:%d" % big, "print_to_with.0:8", "print_to_with.1:8", "print_to_with.2:8",
+          "scan_from_with.0:8", "scan_from_with.1:8", "scan_from_with.2:8", "Tuple_Len.0:6", "main.0:%d" % big]
+    return Ob("roundtrip.%s.%s%s" % (kn, vn, ".prefix" if prefix else ""), "C15/num_roundtrip.c", defs=["KIND=%d" % kind, "VIA=%d" % via, "VCAP=40", "VCAP_BLOCKS=4"] + (["WITH_PREFIX"] if prefix else []),
+              srcs_extra=["env_vcap2.c", "env_printf.c"], filedefs={"String.c": ["-Drealloc=vcap_realloc", "-Dcalloc=vcap_calloc", "-Dfree=vcap_free"]},
+              unwind=big, unwindset=us, checks=["bounds", "pointer"], tiers=tiers, object_bits=14, mem_gb=10, timeout=900,
+              desc="%s written and read back (%s), two values with a separator%s" % (kn, vn, ", after a prefix character" if prefix else ""), **kw)
+QT = ("quick", "thorough")
+OBLIGATIONS = [N(0, 0, QT), N(1, 0, QT), N(0, 1, QT), N(1, 1, QT), N(0, 2, QT, prefix=True), N(1, 2, QT, prefix=True), N(0, 3, QT),
+R("plain", 1, QT, timeout=1500), R("prefix", 1, ("thorough",), extra=["WITH_PREFIX"], timeout=3000), R("two", 1, ("thorough",), extra=["TWO"], timeout=3000),
+               R("plain", 2, ("probe",), timeout=3600, mem_gb=28)]
+LEVEL_TEXT = ("Bounded model checking of the real writers and readers (String_Show/String_Look, Int_Show/Int_Look, Float_Show/Float_Look, show_to/look_from, print_to_with/scan_from_with, "
+              "String_Format_To/String_Format_From) on a String sink: every String of <= 1 content byte over the full byte range (quotes, backslashes, control characters), every int64 and "
+              "every finite double, alone and followed by a separator and a second value, from start positions 0, 1/2 and the position after the separator; value read back equal and "
+              "reader position equal to writer position.")
+LEVEL_NOTE = ("Trusted: cbmc; lib/env_printf.c as the contract of vsnprintf/vsprintf/vsscanf for the directives reached (literal text, %%, %c, %n, %li/%ld, %i/%d, %f, %lf) -- the decimal digits "
+              "libc produces and parses are FFI and replaced by an abstract injective fixed-width text, so the numeric claim is 'Cello hands the right C value and width to the writer, the right "
+              "pointer and width to the reader, and accounts positions exactly', not 'glibc round-trips decimals'; Float equality is exact under the model, i.e. at least as strong as 'within the "
+              "printed precision'. lib/env_vcap2.c as malloc/realloc/free. Outside: File sinks (vfprintf/vfscanf on a FILE* are libc I/O; File_Format_To/From forward the same va_list and ignore pos), "
+              "Strings longer than 1 content byte in the quick/thorough tiers (2 bytes runs out of memory at 28 GB), directives with flags/width/precision, sequences of more than two values.")
